@@ -29,6 +29,7 @@ type Profile struct {
 	SmallWindows         bool // small signing windows (jailing reachable)
 	Limiter              int  // 0 = draw, 1 = force off, 2 = force on
 	EarlyQuiet           bool // keep validator stake changes out of blocks 1..3 (F9) and exits out of block 1 (F11)
+	F11Narrow            bool // (with EarlyQuiet off) keep out of block 1 only what F11 is about: a genesis validator leaving or being displaced
 	OneGenesisUnbond     bool // at most one genesis stake unbonding at a time (F6)
 	VaryGas              bool
 	ContractGasCap       uint64
@@ -137,6 +138,7 @@ type GenSource struct {
 	// the delegatee of the latest stake-type tx and the height it was generated for
 	lastStakeTo []byte
 	lastStakeH  int64
+	quiet       int // number of almost empty blocks at the start (marathon variant)
 	// number of parameter changes the model had seen when injections were last generated
 	paramsChangedSeen int
 	// hooks for engines that extend the schedule
@@ -253,6 +255,16 @@ func NewGenSource(t *rapid.T, p *Profile) *GenSource {
 	s := &GenSource{t: t, P: p}
 	s.g = s.genGenesis()
 	s.nBlocks = p.MinBlocks + unif(t, p.MaxBlocks-p.MinBlocks+1, "nBlocks")
+	if !p.IsCrowd && pct(t, map[string]int{"thorough": 6}[tier()]+4, "marathon") {
+		// a long quiet lead-in (almost empty blocks, everybody signs) so that the active part of the history lies
+		// around height 100: three-digit heights, ten reward-hash periods, versions the stores have pruned or cached
+		// differently than in a young chain
+		s.quiet = 84 + unif(t, 16, "quietLeadIn")
+		if s.nBlocks > 24 {
+			s.nBlocks = 24
+		}
+		s.nBlocks += s.quiet
+	}
 	return s
 }
 
@@ -333,13 +345,14 @@ func (s *GenSource) StartBlock(w *World) *Block {
 		return nil
 	}
 	s.blockNo++
+	quiet := s.blockNo <= s.quiet
 	h := w.H + 1
 	b := &Block{}
 	cur := setEntries(w.TM.At(h))
 	if len(cur) > 0 && !pct(t, s.P.PNoProposer, "noProposer") {
 		b.Proposer = pick(t, cur, "proposer").Addr
 	}
-	if h >= 4 && s.P.PAbsent > 0 && pct(t, s.P.PAbsent/2+2, "downtimeStarts") {
+	if h >= 4 && !quiet && s.P.PAbsent > 0 && pct(t, s.P.PAbsent/2+2, "downtimeStarts") {
 		if cur1 := setEntries(w.TM.At(h - 1)); len(cur1) > 0 {
 			if s.offline == nil {
 				s.offline = map[string]int64{}
@@ -350,7 +363,7 @@ func (s *GenSource) StartBlock(w *World) *Block {
 	}
 	if h >= 2 {
 		for _, e := range setEntries(w.TM.At(h - 1)) {
-			signed := !pct(t, s.P.PAbsent, "absent")
+			signed := quiet || !pct(t, s.P.PAbsent, "absent")
 			if until, off := s.offline[ak(e.Addr)]; off && h-1 <= until {
 				signed = false
 			}
@@ -361,7 +374,7 @@ func (s *GenSource) StartBlock(w *World) *Block {
 			b.Votes = append(b.Votes, Vote{Addr: e.Addr, Power: e.Power, Signed: signed})
 		}
 	}
-	hasEv := h >= 2 && pct(t, s.P.PEvidence, "hasEvidence")
+	hasEv := h >= 2 && !quiet && pct(t, s.P.PEvidence, "hasEvidence")
 	if hasEv && s.P.EarlyQuiet && h <= 3 {
 		w.Excluded["F9:evidence_in_blocks_1_3"]++
 		hasEv = false
@@ -373,8 +386,17 @@ func (s *GenSource) StartBlock(w *World) *Block {
 		}
 	}
 	s.nTx = unif(t, s.P.MaxTxs+1, "nTxs")
+	if quiet {
+		s.nTx = 0
+		if pct(t, 12, "quietTx") {
+			s.nTx = 1
+		}
+		if s.blockNo == s.quiet {
+			w.Feat["marathon_lead_in"]++
+		}
+	}
 	s.fresh = nil
-	if s.P.Inject || s.P.LiveInject {
+	if (s.P.Inject || s.P.LiveInject) && !quiet {
 		// fresh valid transactions that only ever reach the mempool check
 		saveFault, saveW := s.P.PFault, s.P.W
 		s.P.PFault = 0
@@ -754,6 +776,13 @@ func (s *GenSource) genTx(w *World, b *Block) ([]byte, string) {
 				sp.to = actorNamed("nobody").Addr // turns into a failing delegation
 			}
 		}
+		if s.P.F11Narrow && !s.P.EarlyQuiet && h <= 1 {
+			// a new validator may join in block 1 only while there is room for everybody (nobody is displaced)
+			if _, isDeleg := w.Delegs[ak(sp.to)]; !isDeleg && string(sp.to) == string(sp.from.Addr) && int64(len(w.Delegs))+1 > w.Params.MaxValidatorCnt {
+				w.Excluded["F11:displacing_self_stake_in_block_1"]++
+				sp.to = actorNamed("nobody").Addr
+			}
+		}
 		sp.payload = &ctypes.TrxPayloadStaking{}
 		s.lastStakeTo, s.lastStakeH = sp.to, h
 		sp.note = fmt.Sprintf("stake %s->%x amt=%s", sp.from.Name, sp.to[:4], sp.amount.Dec())
@@ -1025,6 +1054,10 @@ func (s *GenSource) excludeUnstake(w *World, sp *txSpec, id []byte, h int64) boo
 	}
 	if s.P.EarlyQuiet && h <= 3 {
 		w.Excluded["F9/F11:validator_stake_change_in_blocks_1_3"]++
+		return true
+	}
+	if s.P.F11Narrow && h <= 1 && string(target.Owner) == string(sp.to) && s.isGenesisVal(sp.to) {
+		w.Excluded["F11:genesis_validator_unstaking_in_block_1"]++
 		return true
 	}
 	if s.P.OneGenesisUnbond {
